@@ -129,6 +129,10 @@ func TestC15(t *testing.T) {
 				if mask&8 != 0 {
 					sc.OutKind = rapid.SampledFrom(outKinds[2:]).Draw(rt, "outKind")
 				}
+				if sc.Print && rapid.IntRange(0, 2).Draw(rt, "stdoutFull") == 0 {
+					sc.Stdout = "full"
+					rec.Class("stdout:/dev/full")
+				}
 				if kind == "accepted" && rapid.IntRange(0, 9).Draw(rt, "missingInput") == 0 {
 					sc.Input = "home/no_such_setup.go"
 				}
